@@ -393,6 +393,68 @@ def _raise_sites(repo: Repo, ci, fn: ast.FunctionDef, guards: List[str], depth: 
     return out
 
 
+def _specialise(repo: Repo, k, fn: ast.FunctionDef) -> ast.FunctionDef:
+    """`fn` as it runs on an instance of exactly class `k`: `isinstance(self, X)` and class-level flags read through `self` are
+    replaced by their values and the branches they decide are pruned."""
+    import copy as _copy
+
+    class X(ast.NodeTransformer):
+        def visit_Call(self, node):
+            node = self.generic_visit(node)
+            if norm(node.func) == "isinstance" and len(node.args) == 2 and norm(node.args[0]) == "self":
+                targets = node.args[1].elts if isinstance(node.args[1], ast.Tuple) else [node.args[1]]
+                res = False
+                for t in targets:
+                    c = repo.class_of_expr(t, k, k.file)
+                    if c is None:
+                        return node
+                    try:
+                        res = res or c is k or c in repo.mro(k)
+                    except AnchorMissing:
+                        return node
+                return ast.copy_location(ast.Constant(value=res), node)
+            return node
+
+        def visit_Attribute(self, node):
+            node = self.generic_visit(node)
+            if isinstance(node.ctx, ast.Load) and norm(node.value) in ("self", "type(self)", "self.__class__"):
+                r = repo.lookup(k, node.attr)
+                if r is not None and r[1] == "assign" and isinstance(r[2], ast.Constant) and isinstance(r[2].value, bool):
+                    return ast.copy_location(ast.Constant(value=r[2].value), node)
+            return node
+
+        def visit_If(self, node):
+            node.test = self.visit(node.test)
+            t = node.test
+            neg = False
+            while isinstance(t, ast.UnaryOp) and isinstance(t.op, ast.Not):
+                t, neg = t.operand, not neg
+            node.body = [y for x in node.body for y in ([self.visit(x)] if not isinstance(self.visit(x), list) else self.visit(x))] if False else [self.visit(x) for x in node.body]
+            node.orelse = [self.visit(x) for x in node.orelse]
+            if isinstance(t, ast.Constant) and isinstance(t.value, bool):
+                taken = node.body if (t.value != neg) else node.orelse
+                return taken or [ast.Pass()]
+            return node
+    new = _copy.deepcopy(fn)
+    new = X().visit(new)
+    flat = []
+    def flatten_lists(stmts):
+        out = []
+        for st in stmts:
+            if isinstance(st, list):
+                out.extend(flatten_lists(st))
+            else:
+                for fld in ("body", "orelse", "finalbody"):
+                    sub = getattr(st, fld, None)
+                    if isinstance(sub, list) and not isinstance(st, ast.Expr):
+                        setattr(st, fld, flatten_lists(sub))
+                out.append(st)
+        return out
+    new.body = flatten_lists(new.body)
+    ast.fix_missing_locations(new)
+    return new
+
+
 def validation_rules(repo: Repo, rep, P: str):
     ctl = repo.cls("Controller", module="rv.controller")
     rel = ctl.file.rel
@@ -491,25 +553,46 @@ def validation_rules(repo: Repo, rep, P: str):
             rep.violation(f"{P}.R4", vcon, f"accepts [{lo}, {hi}] (m = min, M = max)",
                           "a fixed range must reject exactly the values below min or above max: both bounds are legal values "
                           "and both sides must be tested", f"{rel}:{vf.lineno}")
-    sites = _raise_sites(repo, rng, vf, [], 0)
-    good = [x for x in sites if x[1] == "RangeValidationError" and all(g in ("range-test", "not-warnonly") for g in x[2])]
-    odd = [x for x in sites if x not in good]
-    if good and not odd:
-        rep.ok(f"{P}.R4", vcon, "WarnOnlyRange → log.warning; otherwise raise RangeValidationError", "only the warn-only kind is exempt from raising")
-    elif not sites:
-        rep.violation(f"{P}.R4", vcon, norm(vf)[:200], "out-of-range values of a fixed range must raise RangeValidationError (only WarnOnlyRange may just warn)",
-                      f"{rel}:{vf.lineno}")
-    elif any(x[1] != "RangeValidationError" and x[1] is not None for x in sites):
-        rep.violation(f"{P}.R4", vcon, "; ".join(f"raise {x[1]}" for x in sites), "the range check must raise RangeValidationError (set_initial and set_raw turn "
-                      "exactly that into the controller-value error)", f"{rel}:{vf.lineno}")
-    else:
-        rep.inconclusive(f"{P}.R4", vcon, "; ".join(f"raise {x[1]} under {x[2]}" for x in odd)[:200],
-                         "the raise is guarded by a condition that is not recognised", f"{rel}:{vf.lineno}")
+    # per kind of range: what happens to an out-of-range value.  The method is specialised to the class it runs on (helpers
+    # that a subclass overrides are resolved for that subclass, `isinstance(self, K)` / class flags are decided).
     wo = repo.cls("WarnOnlyRange", module="rv.controller")
-    if repo.base_names(wo) == ["Range"] and not wo.methods:
-        rep.ok(f"{P}.R4", f"{rel}:WarnOnlyRange", "marker subclass of Range", nontrivial=False)
-    else:
-        rep.violation(f"{P}.R4", f"{rel}:WarnOnlyRange", str(sorted(wo.methods)), "WarnOnlyRange must stay a plain marker subclass", rel)
+    kinds = []
+    for k in repo.all_classes():
+        try:
+            if k.file is rng.file and (k is rng or rng in repo.mro(k)):
+                kinds.append(k)
+        except AnchorMissing:
+            continue
+    rep.count("range_kinds_validated", len(kinds), 4)
+    for k in sorted(kinds, key=lambda c: c.qualname):
+        kcon = f"{rel}:{k.qualname}.validate"
+        try:
+            owner, kfn = repo.method(k, "validate")
+        except AnchorMissing:
+            rep.violation(f"{P}.R4", kcon, "validate", "no validate()", rel)
+            continue
+        spec = _specialise(repo, k, inline.normalize(repo, k, kfn, exact=True))
+        sites = _raise_sites(repo, k, spec, [], 0)
+        warn_only = k is wo or wo in repo.mro(k)
+        names = {x[1] for x in sites}
+        if warn_only:
+            if not sites:
+                rep.ok(f"{P}.R4", kcon, "out of range → log.warning", "the warn-only kind never raises")
+            else:
+                rep.violation(f"{P}.R4", kcon, "; ".join(f"raise {x[1]}" for x in sites),
+                              "a warn-only range must not raise for an out-of-range value (stored values outside the known bounds are kept)", rel)
+        else:
+            if sites and names == {"RangeValidationError"} and all(all(g in ("range-test", "not-warnonly") for g in x[2]) for x in sites):
+                rep.ok(f"{P}.R4", kcon, "out of range → raise RangeValidationError", "only the warn-only kind is exempt from raising")
+            elif not sites:
+                rep.violation(f"{P}.R4", kcon, norm(spec)[:200], "out-of-range values of a fixed range must raise RangeValidationError (only WarnOnlyRange may just warn)",
+                              f"{rel}:{kfn.lineno}")
+            elif any(x[1] != "RangeValidationError" and x[1] is not None for x in sites):
+                rep.violation(f"{P}.R4", kcon, "; ".join(f"raise {x[1]}" for x in sites), "the range check must raise RangeValidationError (set_initial and set_raw turn "
+                              "exactly that into the controller-value error)", f"{rel}:{kfn.lineno}")
+            else:
+                rep.inconclusive(f"{P}.R4", kcon, "; ".join(f"raise {x[1]} under {x[2]}" for x in sites)[:200],
+                                 "the raise is guarded by a condition that is not recognised", f"{rel}:{kfn.lineno}")
     # enum by name, None type
     s2 = norm(fn)
     dom = g.dominators()
